@@ -108,8 +108,9 @@ def run_property(chk: Check, pid: str, props_module: str, theorems: List[str], m
             ob = O.Obs(r, h)
             for name in checkers:
                 # liveness (C03) and the per-connection stream rules of C05 (sequence numbers, declared lengths, publish
-                # order) need no monitor and no simulation of who is connected: they are evaluated on every history
-                if name in ("C03", "C05"):
+                # order) need no monitor and no simulation of who is connected: they are evaluated on every history; so
+                # is the table rule of C07 (index and logger set only hold connections of the module table)
+                if name in ("C03", "C05", "C07"):
                     for key, desc in O.CHECKERS[name](h, {}, O.Expect(), ob):
                         chk.spec_failure(key=key, desc=desc, replay=dict(history=h.case_json(), kind=k, events=h.cevents, pickle=base64.b64encode(pickle.dumps(h)).decode()))
             continue
